@@ -29,24 +29,27 @@ func verifEventApplied(local string, from string, ev *Event) {
 	}
 }
 
-// VerifFedView returns the (full) topic filters this node believes the given peer node subscribes to.
+// VerifFedView returns the topic filters this node believes the given peer node subscribes to, each as
+// "<share name>|<topic filter>" (the share name is empty for a non-shared subscription), so that a shared
+// subscription and a non-shared one whose filter happens to read "$share/..." can be told apart.
 func (f *Federation) VerifFedView(node string) []string {
 	var out []string
 	f.fedSubStore.Iterate(func(clientID string, sub *gmqtt.Subscription) bool {
-		out = append(out, sub.GetFullTopicName())
+		out = append(out, sub.ShareName+"|"+sub.TopicFilter)
 		return true
 	}, subscription.IterationOptions{Type: subscription.TypeAll, ClientID: node})
 	sort.Strings(out)
 	return out
 }
 
-// VerifLocalTopics returns the topic filters that have at least one local subscriber.
+// VerifLocalTopics returns the topic filters that have at least one local subscriber, in the format of VerifFedView.
 func (f *Federation) VerifLocalTopics() []string {
 	f.localSubStore.Lock()
 	defer f.localSubStore.Unlock()
 	out := make([]string, 0, len(f.localSubStore.topics))
 	for k := range f.localSubStore.topics {
-		out = append(out, k)
+		share, filter := subscription.SplitTopic(k)
+		out = append(out, share+"|"+filter)
 	}
 	sort.Strings(out)
 	return out
